@@ -23,7 +23,7 @@ for d in sorted(glob.glob(f'/verif/seeded/{pid}*')):
     used.append('- '+m['summary'][:230].replace('\n',' ')+' …')
 print(f"""You are helping to test a verification effort for ObolNetwork/charon (Go; Ethereum distributed-validator middleware). Your job is to write ONE realistic change to the code base that BREAKS the semantic property below, while the code still compiles and ALL existing tests of the repository still pass, together with a demonstration (a Go test) that fails with your change and passes without it.
 
-Work ONLY inside the scratch git worktree {wt} (a detached worktree of the repository). Never touch /repo or /verif, never commit, never push. Deliver everything under {wt}/_seed/ (already created).
+Work ONLY inside the scratch git worktree {wt} (a detached worktree of the repository). Never touch /repo or /verif, never commit, never push. Do not inspect the git history or other git objects (no git log / git show / git stash / other worktrees), and do not look for or read any file named verif_contracts.go: your change must be independent of any verification material. Deliver everything under {wt}/_seed/ (already created).
 
 ## The property
 
@@ -49,7 +49,7 @@ Always pass -vet=off -count=1 and a -timeout to go test. Run tests only for the 
 
 ## Deliverables, all under {wt}/_seed/
 
-1. `patch.diff`  — `git diff` of your change against the worktree's HEAD (production files only; must apply with `git apply` to a clean checkout). Produce it with `git diff -- . ':!_seed' > _seed/patch.diff` while the demo file is NOT in the tree (or is untracked).
+1. `patch.diff`  — `git diff` of your change against the worktree's HEAD (production files only; must apply with `git apply` to a clean checkout). Produce it with `git diff -- . ':(exclude)_seed' > _seed/patch.diff` while the demo file is NOT in the tree (or is untracked).
 2. `demo_test.go` — a Go test file (package of the directory it is to be copied into; give it test names starting with `TestDemo{pid}`) that FAILS with your change applied and PASSES on the unmodified tree. It should demonstrate the property violation as directly as you can (observable behaviour that contradicts the property statement), not merely a difference in internals. Keep it deterministic (retry loops for schedule-dependent failures are fine if the failure is then near-certain) and under about two minutes.
 3. `meta.json` with exactly these keys:
    - "property": "{pid}"
